@@ -61,10 +61,19 @@ func (c *Ctx) HandleGenCex(o *Outcome, it *GenItem, r *Result) {
 	}
 }
 
+// randomGrammars: the seeded small-scope generator (VERIF_SEED).
+func (c *Ctx) randomGrammars() []*corpus.Grammar {
+	n := 12
+	if c.Thorough() {
+		n = 80
+	}
+	return corpus.RandomGrammars(int64(c.Seed)+1, n)
+}
+
 // C01: the generated parser accepts exactly L(G).
 func C01(c *Ctx) int {
 	o := &Outcome{}
-	c.runParseCheck(o, parseCheck{Func: "H_Member", Label: "parse.Member", Grammars: corpus.ParserLanguageAll(c.Thorough()),
+	c.runParseCheck(o, parseCheck{Func: "H_Member", Label: "parse.Member", Grammars: append(corpus.ParserLanguageAll(c.Thorough()), c.randomGrammars()...),
 		MaxNQuick: 5, MaxNThor: 8, SelfTestN: 5, ReachAny: []string{"accepted", "rejected"}})
 	o.Assumptions = []string{"the grammar dimension is an enumerated corpus, not solver-decided",
 		"token kinds range over the item's terminals (EOF and ERROR excluded)",
@@ -76,7 +85,7 @@ func C01(c *Ctx) int {
 // C03: actions are the unique bottom-up derivation; sugar values.
 func C03(c *Ctx) int {
 	o := &Outcome{}
-	c.runParseCheck(o, parseCheck{Func: "H_Tree", Label: "parse.Tree", Grammars: corpus.ParserLanguageAll(c.Thorough()),
+	c.runParseCheck(o, parseCheck{Func: "H_Tree", Label: "parse.Tree", Grammars: append(corpus.ParserLanguageAll(c.Thorough()), c.randomGrammars()...),
 		MaxNQuick: 5, MaxNThor: 8, ReachAny: []string{"accepted"}})
 	o.Assumptions = []string{"corpus grammars; Discard() results are symbolic per token and per node",
 		"the derivation-tree checker (mine) accepts exactly derivation trees whose leaves are the input in order; uniqueness of the tree follows from lox accepting the grammar (C04) "}
